@@ -15,6 +15,16 @@ use std::time::Instant;
 pub const HARNESS_VERSION: u32 = 1;
 pub const VERIF_DIR: &str = "/verif";
 
+/// Where evidence and replay files are written. `/verif` unless `VERIF_OUT_DIR` is set (used only by
+/// `tools_eval_lanes.sh`, which evaluates seeded changes in scratch copies and must not touch /verif/evidence).
+/// Inputs (known_findings.json, findings/) are always read from `VERIF_DIR`.
+pub fn out_dir() -> PathBuf {
+    match std::env::var("VERIF_OUT_DIR") {
+        Ok(d) if !d.is_empty() => PathBuf::from(d),
+        _ => PathBuf::from(VERIF_DIR),
+    }
+}
+
 #[derive(Clone, Copy, Debug, PartialEq, Eq)]
 pub enum Tier {
     Quick,
@@ -531,7 +541,7 @@ pub fn check<P: Property>(opt: &Options) -> i32 {
                 } else {
                     // a different failure on the recorded input: not what the file lists
                     let name = format!("{}-known-{}-changed.json", id, k.id);
-                    let (p, _) = write_replay::<P>(&Path::new(VERIF_DIR).join("replays").join(id), &name, opt.seed, 0, 0, true, &sc);
+                    let (p, _) = write_replay::<P>(&out_dir().join("replays").join(id), &name, opt.seed, 0, 0, true, &sc);
                     violations.push((p, v.clone()));
                 }
             }
@@ -539,7 +549,7 @@ pub fn check<P: Property>(opt: &Options) -> i32 {
             (Some(v), _) => {
                 // a fixed entry suppresses nothing: regression
                 let name = format!("{}-regression-{}.json", id, k.id);
-                let (p, _) = write_replay::<P>(&Path::new(VERIF_DIR).join("replays").join(id), &name, opt.seed, 0, 0, true, &sc);
+                let (p, _) = write_replay::<P>(&out_dir().join("replays").join(id), &name, opt.seed, 0, 0, true, &sc);
                 violations.push((p, v.clone()));
             }
             (None, _) => {}
@@ -654,7 +664,7 @@ pub fn check<P: Property>(opt: &Options) -> i32 {
     // 4. triage: minimise, match against known findings, report
     let mut found = found.into_inner().unwrap();
     found.sort_by_key(|f| (f.idx, f.variant));
-    let replay_dir = Path::new(VERIF_DIR).join("replays").join(id);
+    let replay_dir = out_dir().join("replays").join(id);
     let mut reported_classes: HashSet<String> = HashSet::new();
     let minimise_runs = stats.minimise_runs as usize;
     for (kid, n) in &stats.known_hits {
@@ -748,7 +758,7 @@ pub fn check<P: Property>(opt: &Options) -> i32 {
         "wall_s": wall,
         "violations": violations.len(),
     });
-    let evdir = Path::new(VERIF_DIR).join("evidence");
+    let evdir = out_dir().join("evidence");
     std::fs::create_dir_all(&evdir).ok();
     std::fs::write(evdir.join(format!("{id}.json")), serde_json::to_string_pretty(&evidence).unwrap()).expect("write evidence");
 
